@@ -37,8 +37,8 @@ type GenCfg struct {
 	Depth     int // nesting budget for init code
 	// weights of block families
 	WNoise, WStorage, WMem, WCall, WCreate, WExport, WLockup, WSelfdestruct, WLoop, WTerminal int
-	MemCap uint64 // largest size operand of metered memory operations
-	Excl   *Exclusions
+	MemCap                                                                                    uint64 // largest size operand of metered memory operations
+	Excl                                                                                      *Exclusions
 }
 
 // DefaultCfg is the C02 mix; ExportCfg is the C05 mix (biased to value-exporting operations).
@@ -65,7 +65,13 @@ type ProgGen struct {
 	Price *big.Int
 	Cfg   GenCfg
 	Kinds []string // kinds of all blocks generated in this case (signature material)
-	n     int
+	// Created collects the addresses CREATE/CREATE2 blocks are expected to deploy to (exact for
+	// CREATE2 with a ground salt executed in the account's own context, a best-effort prediction
+	// for the n-th CREATE of an account); the case puts them into the complete access list, since
+	// evm.create refuses an address that is not listed when access lists are enforced.
+	Created []common.Address
+	creates map[common.AddressBytes]uint64
+	n       int
 }
 
 func (g *ProgGen) lbl(s string) string { g.n++; return fmt.Sprintf("%s#%d", s, g.n) }
@@ -935,6 +941,7 @@ func (g *ProgGen) create(a *Asm, h *Hints, depth int) {
 				addr := crypto.CreateAddress2(h.Self, s, ch.Bytes(), Loc)
 				if _, err := addr.InternalAndQuaiAddress(); err == nil {
 					salt = big.NewInt(i)
+					g.Created = append(g.Created, addr)
 					break
 				}
 			}
@@ -942,6 +949,16 @@ func (g *ProgGen) create(a *Asm, h *Hints, depth int) {
 			salt = bi(int64(g.intn("salt", 4)))
 		}
 		a.PushBig(salt)
+	}
+	if !two {
+		if g.creates == nil {
+			g.creates = map[common.AddressBytes]uint64{}
+		}
+		g.creates[h.Self.Bytes20()]++
+		// generated contracts start with nonce 1
+		if addr, ok := PredictCreateAddress(h.Self, g.creates[h.Self.Bytes20()], init, g.Env.BlockNumber); ok {
+			g.Created = append(g.Created, addr)
+		}
 	}
 	a.Push(uint64(len(init))).Push(0).PushBig(value)
 	if two {
